@@ -11,6 +11,7 @@ open XmlLex
 open XmlTree
 open NsTable
 open Dom
+open Construct
 
 type sx = A of string | L of sx list
 
@@ -189,6 +190,19 @@ let dispatch (f : string) (args : sx list) : sx =
        | None -> failwith "no heap"
        | Some h ->
            let r = Dom.step h (op_of_sx o) in
+           let h' = Dom.heap_of r in
+           cur_heap := Some h';
+           L [ (match r with ROk _ -> A "Ok" | RRaise (e, _) -> L [A "Raise"; sx_of_exn e]); sx_of_heap h' ])
+  | "dom_construct", [q; sn; L steps; chk; req; par] ->
+      (match !cur_heap with
+       | None -> failwith "no heap"
+       | Some h ->
+           let exn_of = function
+             | A "IllegalChild" -> IllegalChild | A "IllegalText" -> IllegalText | A "AttributeError" -> AttributeErr
+             | A "ValueError" -> ValueErr | _ -> failwith "exn" in
+           let steps' = SL.map (function A "ok" -> None | e -> Some (exn_of e)) steps in
+           let par' = (match par with A "N" -> None | L [p; a] -> Some (nat_of_sx p, bool_of_sx a) | _ -> failwith "par") in
+           let r = Construct.construct h (nat_of_sx q) (idopt_of_sx sn) steps' (bool_of_sx chk) (bool_of_sx req) par' in
            let h' = Dom.heap_of r in
            cur_heap := Some h';
            L [ (match r with ROk _ -> A "Ok" | RRaise (e, _) -> L [A "Raise"; sx_of_exn e]); sx_of_heap h' ])
